@@ -27,9 +27,9 @@ import (
 // injective / sticky, delegated prefixes stay disjoint and sticky, static
 // mappings move forward only and are never a mixture.
 type raceCase struct {
-	Seed   int64 `json:"seed"`
-	RangeN int   `json:"range_n"`
-	Bursts []int `json:"bursts"`
+	Seed   int64  `json:"seed"`
+	RangeN int    `json:"range_n"`
+	Bursts []int  `json:"bursts"`
 	Kind   string `json:"kind"`
 }
 
@@ -59,23 +59,23 @@ type relayKey struct {
 }
 
 type raceReq struct {
-	rxIf    int  // receive interface index given to the server
-	pinned  bool // the reply must be pinned to rxIf (link-local peer / broadcast)
-	unanswered bool // a datagram of a kind the server never answers
-	storm      bool // part of the refresh storm (replies are only checked for the echo)
+	rxIf       int    // receive interface index given to the server
+	pinned     bool   // the reply must be pinned to rxIf (link-local peer / broadcast)
+	unanswered bool   // a datagram of a kind the server never answers
+	storm      bool   // part of the refresh storm (replies are only checked for the echo)
 	l2storm    bool   // part of a link-level storm (static client, answered with a raw frame)
 	l2link     string // DHCPv4 answered at link level: the interface the request arrived on (ve0|vf0)
 	relay      byte   // DHCPv4: last byte of the relay address 10.9.9.x the request came through
 	opt82      []byte // relay agent information this relay added
-	v6      bool
-	xid     uint32
-	mac     []byte // chaddr (v4) / DUID-LL address (v6)
-	static  bool
-	macIdx  int
-	pd      bool
-	burst   int
-	call    int64
-	ret     int64
+	v6         bool
+	xid        uint32
+	mac        []byte // chaddr (v4) / DUID-LL address (v6)
+	static     bool
+	macIdx     int
+	pd         bool
+	burst      int
+	call       int64
+	ret        int64
 }
 
 func (raceEngine) Run(ctx *fw.Ctx, cs any) {
